@@ -66,3 +66,13 @@ Lemma chk_shr_some : forall w a s, 0 <= s < w -> chk_shr w a s = Some (shr a s).
 Proof. intros w a s H. unfold chk_shr. destruct (Z.leb_spec 0 s); [|lia]. destruct (Z.ltb_spec s w); [reflexivity|lia]. Qed.
 Lemma chk_shl_u_some : forall w a s, 0 <= s < w -> chk_shl_u w a s = Some (shl_u w a s).
 Proof. intros w a s H. unfold chk_shl_u. destruct (Z.leb_spec 0 s); [|lia]. destruct (Z.ltb_spec s w); [reflexivity|lia]. Qed.
+
+(* loops over a slice: a monadic fold whose state is the tuple of variables the body assigns *)
+Fixpoint foldM {S A} (f : S -> A -> option S) (l : list A) (s : S) : option S :=
+  match l with [] => Some s | x :: t => match f s x with Some s' => foldM f t s' | None => None end end.
+Fixpoint foldM_enum_from {S A} (f : Z * S -> A -> option S) (i : Z) (l : list A) (s : S) : option S :=
+  match l with [] => Some s | x :: t => match f (i, s) x with Some s' => foldM_enum_from f (i + 1) t s' | None => None end end.
+Definition foldM_enum {S A} (f : Z * S -> A -> option S) (l : list A) (s : S) : option S := foldM_enum_from f 0 l s.
+(* &l[lo..hi]: panics unless lo <= hi <= len *)
+Definition slice {A} (l : list A) (lo hi : Z) : option (list A) :=
+  if (0 <=? lo) && (lo <=? hi) && (hi <=? Z.of_nat (length l)) then Some (firstn (Z.to_nat (hi - lo)) (skipn (Z.to_nat lo) l)) else None.
